@@ -76,6 +76,8 @@ def BOUNDED(tier, seed):
         ok = True
         for t in range(steps):
             y = rng.choice([0, 1, 2]) if rng.random() < 0.7 else rng.choice([True, False])
+            if dict_metric and t % 4 == 3:
+                y = 7           # a true label the model has not emitted (not a key of the prediction dict)
             if dict_metric:
                 p = {0: rng.random(), 1: rng.random(), 2: rng.random()}
             else:
